@@ -21,6 +21,36 @@ var Strategies = []string{"round_robin", "least_connections", "weighted_round_ro
 
 func abortFault(f string) bool { return strings.HasPrefix(f, "client-abort") }
 
+// Pause is not a fault but a step of a sequence: a QUIET PERIOD of Step.PauseMs of real time during
+// which the harness sends nothing (no request, hence no failure). The generated configurations carry
+// their intervals at the minimum internal/config accepts (see the t* constants and Cfg.BreakerInterval /
+// Cfg.Idle), so that a pause of 1.1-2.5 s is LONGER than the breaker's counting interval and open
+// timeout, the passive unhealthy window, the rate limiter's refill period and the server / backend idle
+// timeouts (1 s each), and from 2.1 s on longer than the active-check interval (2 s, the minimum: it
+// has to exceed the probe timeout of 1 s). What a fault left behind (counted failures below the
+// threshold, an ejected backend, an open breaker, pooled connections) has then aged out when the next
+// request arrives.
+const Pause = "pause"
+
+// Framings is the framing dimension of the FAULTY backend's response: Content-Length, chunked
+// transfer coding, or delimited by closing the connection (Connection: close). "" = "cl".
+var Framings = []string{"cl", "chunked", "close"}
+
+func framingOf(f string) string {
+	if f == "" {
+		return "cl"
+	}
+	return f
+}
+
+// framed: the faults that leave a response head, i.e. for which the framing dimension means something.
+func framed(f string) bool { return f == "5xx" || midBody(f) }
+
+// midBody: the faults that hit after the backend's response head.
+func midBody(f string) bool {
+	return f == "reset-after-headers" || f == "short-body" || f == "slow-body"
+}
+
 // Kinds is the request-kind dimension: the shape of the client request a fault is played against.
 //
 //	get               plain bodiless GET
@@ -56,20 +86,24 @@ var TimeoutPairs = map[string][][2]int{
 var Relations = []string{"handler<backend_read", "handler==backend_read", "handler>backend_read"}
 
 // Timeouts of every generated configuration: each at its 1 s minimum (whole seconds only), except
-// write (2 s, so that read < write tells the two server deadlines apart), idle (5 s) and the two
-// timeouts that can end a request to a silent backend - handler and backend_read - which are part
-// of the case (Cfg.Handler / Cfg.BackendRead, 1..3 s each, all relations <, ==, >).
+// write (2 s, so that read < write tells the two server deadlines apart), idle (Cfg.Idle: 1 or 5 s),
+// the breaker's counting interval (Cfg.BreakerInterval: 1 or 60 s) and the two timeouts that can end
+// a request to a silent backend - handler and backend_read - which are part of the case (Cfg.Handler /
+// Cfg.BackendRead, 1..3 s each, all relations <, ==, >).
 const (
 	tRead        = 1
 	tWrite       = 2
-	tIdle        = 5
+	tIdle        = 5 // default of Cfg.Idle
 	tHandler     = 2 // default of Cfg.Handler: end-to-end handler timeout (README); not applied to requests with an Upgrade field
 	tShutdown    = 2
 	tBackendDial = 1
 	tBackendRead = 1 // default of Cfg.BackendRead
 	tBackendIdle = 1 // idle pooled backend connections close after 1 s: the fd count can return to its baseline
 	cbTimeout    = 1
+	cbInterval   = 60 // default of Cfg.BreakerInterval
 	unhealthyFor = 1
+	activeEvery  = 2 // active-check interval; internal/config demands interval > timeout >= 1
+	refillEvery  = 1
 )
 
 // Cfg is the configuration part of a case.
@@ -84,6 +118,11 @@ type Cfg struct {
 	// server.timeouts.handler / backend_read in seconds, each 1..3; 0 = the former fixed values (handler 2, backend_read 1)
 	Handler     int `json:"handler_timeout_s,omitempty"`
 	BackendRead int `json:"backend_read_timeout_s,omitempty"`
+	// circuit_breaker.interval_seconds: failures older than this no longer count. 0 = 60 (the former fixed value);
+	// generated: 1 (a pause step is longer) or 60
+	BreakerInterval int `json:"breaker_interval_s,omitempty"`
+	// server.timeouts.idle in seconds; 0 = 5 (the former fixed value); generated: 1 (a pause step is longer) or 5
+	Idle int `json:"server_idle_timeout_s,omitempty"`
 	// only set by the two directed sub-checks (omitted from the JSON of ordinary cases)
 	BreakerMaxRequestsUnset bool `json:"breaker_max_requests_unset,omitempty"`  // max_requests left out of the YAML (runtime default = success_threshold)
 	PassiveThreshold        int  `json:"passive_unhealthy_threshold,omitempty"` // 0 = 2
@@ -104,6 +143,20 @@ func (c Cfg) backendRead() int {
 		return c.BackendRead
 	}
 	return tBackendRead
+}
+
+func (c Cfg) breakerInterval() int {
+	if c.BreakerInterval > 0 {
+		return c.BreakerInterval
+	}
+	return cbInterval
+}
+
+func (c Cfg) idle() int {
+	if c.Idle > 0 {
+		return c.Idle
+	}
+	return tIdle
 }
 
 // relation names how the two timeouts that can end a request to a silent backend relate.
@@ -127,11 +180,53 @@ func (c Cfg) endBound() time.Duration {
 func (c Cfg) backends() int { return 1 + max(1, c.FaultyEntries) }
 
 // Step is one fault step: the fault is offered as a burst of requests, one after the other
-// (Concurrent == 0: 2 x backends = 4 requests) or all at once (Concurrent = 2..8 requests).
+// (Concurrent == 0: N requests, N == 0 meaning 2 x backends = 4) or all at once (Concurrent = 2..8
+// requests). Fault == Pause: no request at all for PauseMs of real time (the other fields are unused).
 type Step struct {
 	Fault      string `json:"fault"`
 	Concurrent int    `json:"concurrent"`
 	Kind       string `json:"kind,omitempty"` // request kind of every request of the burst (see Kinds); "" = get
+	// N: size of a sequential burst, 1..3 (0 = 4). Small bursts leave FEWER counted failures behind than
+	// the breaker's failure_threshold / the passive unhealthy_threshold.
+	N int `json:"requests,omitempty"`
+	// Both: BOTH backends play the fault for the requests of this step, so that the number of faulted
+	// requests is exact whichever backend Helios picks (afterwards both are well-behaved again).
+	Both bool `json:"both_backends,omitempty"`
+	// Framing of the FAULTY backend's response where the fault leaves a response head: "" = cl | chunked | close
+	Framing string `json:"framing,omitempty"`
+	PauseMs int    `json:"pause_ms,omitempty"`
+}
+
+// requests is the burst size of the step.
+func (s Step) requests() int {
+	switch {
+	case s.Fault == Pause:
+		return 0
+	case s.Concurrent > 0:
+		return s.Concurrent
+	case s.N > 0:
+		return s.N
+	}
+	return 4
+}
+
+func (s Step) String() string {
+	if s.Fault == Pause {
+		return fmt.Sprintf("PAUSE %d ms", s.PauseMs)
+	}
+	d := fmt.Sprintf("%s on %s x%d", s.Fault, kindOf(s.Kind), s.requests())
+	if s.Concurrent > 0 {
+		d += " concurrent"
+	} else {
+		d += " sequential"
+	}
+	if s.Both {
+		d += " (both backends)"
+	}
+	if s.Framing != "" {
+		d += " framing=" + s.Framing
+	}
+	return d
 }
 
 // Case is what is executed, recorded and replayed.
@@ -154,11 +249,7 @@ type Case struct {
 func (c Case) String() string {
 	var ss []string
 	for _, s := range c.Steps {
-		if s.Concurrent > 0 {
-			ss = append(ss, fmt.Sprintf("%s on %s x%d concurrent", s.Fault, kindOf(s.Kind), s.Concurrent))
-		} else {
-			ss = append(ss, fmt.Sprintf("%s on %s x4 sequential", s.Fault, kindOf(s.Kind)))
-		}
+		ss = append(ss, s.String())
 	}
 	switch c.Kind {
 	case "breaker-trial":
@@ -169,25 +260,54 @@ func (c Case) String() string {
 	return fmt.Sprintf("%+v steps [%s]", c.Cfg, strings.Join(ss, ", "))
 }
 
-// Nontrivial is the NT rule of the design: >= 2 distinct fault kinds, or >= 1 abort-type fault with the breaker on.
+// Nontrivial is the NT rule of the design: >= 2 distinct fault kinds, or >= 1 abort-type fault with the
+// breaker on; or (quiet periods) a pause that follows a fault.
 func (c Case) Nontrivial() bool {
 	if c.Kind != "" {
 		return true // directed cases: a fault on the half-open trial / concurrent traffic across window expiries
 	}
 	kinds := map[string]bool{}
-	abort := false
+	abort, quiet := false, false
 	for _, s := range c.Steps {
+		if s.Fault == Pause {
+			quiet = quiet || len(kinds) > 0
+			continue
+		}
 		kinds[s.Fault] = true
 		abort = abort || abortFault(s.Fault)
 	}
-	return len(kinds) >= 2 || (abort && c.Cfg.Breaker > 0)
+	return len(kinds) >= 2 || (abort && c.Cfg.Breaker > 0) || quiet
+}
+
+// faults is the number of fault steps (pauses not counted).
+func (c Case) faults() int {
+	n := 0
+	for _, s := range c.Steps {
+		if s.Fault != Pause {
+			n++
+		}
+	}
+	return n
+}
+
+// quietAfterFault tells whether the sequence has a pause after a fault step.
+func (c Case) quietAfterFault() bool {
+	seen := false
+	for _, s := range c.Steps {
+		if s.Fault == Pause && seen {
+			return true
+		}
+		seen = seen || s.Fault != Pause
+	}
+	return false
 }
 
 // genCfg draws the configuration dimensions.
 func genCfg(rt *rapid.T) Cfg {
 	c := Cfg{Strategy: rapid.SampledFrom(Strategies).Draw(rt, "strategy"), FaultyFirst: rapid.Bool().Draw(rt, "faulty_first")}
 	if rapid.Bool().Draw(rt, "breaker") {
-		c.Breaker = rapid.IntRange(2, 4).Draw(rt, "failure_threshold")
+		c.Breaker = rapid.IntRange(2, 6).Draw(rt, "failure_threshold")
+		c.BreakerInterval = rapid.SampledFrom([]int{1, 1, 1, 60}).Draw(rt, "breaker_interval")
 	}
 	c.Limiter = rapid.Bool().Draw(rt, "limiter")
 	c.Passive = rapid.Bool().Draw(rt, "passive")
@@ -195,6 +315,7 @@ func genCfg(rt *rapid.T) Cfg {
 	c.Plugins = rapid.Bool().Draw(rt, "plugins")
 	c.Handler = rapid.IntRange(1, 3).Draw(rt, "handler_timeout")
 	c.BackendRead = rapid.IntRange(1, 3).Draw(rt, "backend_read_timeout")
+	c.Idle = rapid.SampledFrom([]int{1, 5}).Draw(rt, "server_idle")
 	return c
 }
 
@@ -202,12 +323,28 @@ func genStep(rt *rapid.T) Step {
 	s := Step{Fault: rapid.SampledFrom(Faults).Draw(rt, "fault"), Kind: rapid.SampledFrom(Kinds).Draw(rt, "kind")}
 	if rapid.Bool().Draw(rt, "concurrent") {
 		s.Concurrent = rapid.IntRange(2, 8).Draw(rt, "n")
+		s.Both = rapid.IntRange(0, 3).Draw(rt, "both") == 0
+	} else if s.N = rapid.SampledFrom([]int{0, 0, 1, 2, 3}).Draw(rt, "requests"); s.N > 0 {
+		// a burst smaller than a threshold: played by both backends, so that exactly N requests are faulted
+		s.Both = true
+	}
+	if f := rapid.SampledFrom(Framings).Draw(rt, "framing"); f != "cl" && framed(s.Fault) {
+		if s.Fault == "short-body" && f == "close" {
+			f = "chunked" // a body delimited by the end of the connection cannot be short
+		}
+		s.Framing = f
 	}
 	return s
 }
 
+// genPause draws a quiet period of 1.1-2.5 s.
+func genPause(rt *rapid.T) Step {
+	return Step{Fault: Pause, PauseMs: rapid.IntRange(1100, 2500).Draw(rt, "pause_ms")}
+}
+
 // genCase draws a whole case with a fault sequence of length 1..k (longer ones preferred: all
-// single faults are enumerated by the other sub-check).
+// single faults are enumerated by the other sub-check); after each fault a quiet period follows in
+// 2 of 5 draws (pauses do not count towards the length).
 func genCase(k int) *rapid.Generator[Case] {
 	return rapid.Custom(func(rt *rapid.T) Case {
 		c := Case{Cfg: genCfg(rt)}
@@ -220,6 +357,9 @@ func genCase(k int) *rapid.Generator[Case] {
 		n := rapid.SampledFrom(lens).Draw(rt, "length")
 		for i := 0; i < n; i++ {
 			c.Steps = append(c.Steps, genStep(rt))
+			if rapid.IntRange(0, 4).Draw(rt, "quiet") < 2 {
+				c.Steps = append(c.Steps, genPause(rt))
+			}
 		}
 		return c
 	})
@@ -250,7 +390,7 @@ func (c Cfg) YAML(proxyPort, adminPort int, goodURL, faultyURL string) string {
 	var b strings.Builder
 	p := func(f string, a ...any) { fmt.Fprintf(&b, f, a...) }
 	p("server:\n  port: %d\n  timeouts:\n    read: %d\n    write: %d\n    idle: %d\n    handler: %d\n    shutdown: %d\n    backend_dial: %d\n    backend_read: %d\n    backend_idle: %d\n",
-		proxyPort, tRead, tWrite, tIdle, c.handler(), tShutdown, tBackendDial, c.backendRead(), tBackendIdle)
+		proxyPort, tRead, tWrite, c.idle(), c.handler(), tShutdown, tBackendDial, c.backendRead(), tBackendIdle)
 	p("backends:\n")
 	good := fmt.Sprintf("  - name: \"good\"\n    address: %q\n    weight: 1\n", goodURL)
 	faulty := fmt.Sprintf("  - name: \"faulty\"\n    address: %q\n    weight: 1\n", faultyURL)
@@ -263,19 +403,19 @@ func (c Cfg) YAML(proxyPort, adminPort int, goodURL, faultyURL string) string {
 		p("%s%s", good, faulty)
 	}
 	p("load_balancer:\n  strategy: %q\n", c.Strategy)
-	p("health_checks:\n  active:\n    enabled: %v\n    interval: 2\n    timeout: 1\n    path: \"/healthz\"\n", c.Active)
+	p("health_checks:\n  active:\n    enabled: %v\n    interval: %d\n    timeout: 1\n    path: \"/healthz\"\n", c.Active, activeEvery)
 	thr := c.PassiveThreshold
 	if thr == 0 {
 		thr = 2
 	}
 	p("  passive:\n    enabled: %v\n    unhealthy_threshold: %d\n    unhealthy_timeout: %d\n", c.Passive, thr, unhealthyFor)
-	p("rate_limit:\n  enabled: %v\n  max_tokens: 1000\n  refill_rate_seconds: 1\n", c.Limiter)
+	p("rate_limit:\n  enabled: %v\n  max_tokens: 1000\n  refill_rate_seconds: %d\n", c.Limiter, refillEvery)
 	if c.Breaker > 0 {
 		mr := "  max_requests: 1\n"
 		if c.BreakerMaxRequestsUnset {
 			mr = ""
 		}
-		p("circuit_breaker:\n  enabled: true\n%s  interval_seconds: 60\n  timeout_seconds: %d\n  failure_threshold: %d\n  success_threshold: 1\n", mr, cbTimeout, c.Breaker)
+		p("circuit_breaker:\n  enabled: true\n%s  interval_seconds: %d\n  timeout_seconds: %d\n  failure_threshold: %d\n  success_threshold: 1\n", mr, c.breakerInterval(), cbTimeout, c.Breaker)
 	} else {
 		p("circuit_breaker:\n  enabled: false\n")
 	}
